@@ -20,6 +20,7 @@ type hdrAPI struct {
 	all      func() [][2][]byte
 	wire     func() []byte
 	reparse  func(b []byte, dis bool) (*hdrAPI, error)
+	clone    func() *hdrAPI // CopyTo into a fresh zero-value header of the same type
 }
 
 func newHdr(resp bool, dis bool) *hdrAPI {
@@ -71,6 +72,11 @@ func respAPI(h *fasthttp.ResponseHeader) *hdrAPI {
 			}
 			return respAPI(h2), nil
 		},
+		clone: func() *hdrAPI {
+			h2 := &fasthttp.ResponseHeader{}
+			h.CopyTo(h2)
+			return respAPI(h2)
+		},
 	}
 }
 
@@ -90,6 +96,11 @@ func reqAPI(h *fasthttp.RequestHeader) *hdrAPI {
 				return nil, err
 			}
 			return reqAPI(h2), nil
+		},
+		clone: func() *hdrAPI {
+			h2 := &fasthttp.RequestHeader{}
+			h.CopyTo(h2)
+			return reqAPI(h2)
 		},
 	}
 }
@@ -116,6 +127,15 @@ func joinH(x [][]byte) string {
 	return strings.Join(s, ",")
 }
 
+// allEntries renders every entry All() yields, in order.
+func allEntries(h *hdrAPI) string {
+	var out []string
+	for _, kv := range h.all() {
+		out = append(out, H(kv[0])+"="+H(kv[1]))
+	}
+	return strings.Join(out, ",")
+}
+
 func ordEntries(h *hdrAPI) string {
 	var out []string
 	for _, kv := range h.all() {
@@ -134,7 +154,7 @@ func init() {
 	Register(&Prop{
 		ID: "C29",
 		Rule: "ord: random sequences (2..12 ops) of Add/Set/Del/Peek/PeekAll over ordinary names in several letter cases, request and response headers, normalisation on/off, compared with the Lean model and multimap reference; " +
-			"mix: the same with the specially handled names mixed in, judged by non-interference (other names keep values and order after every op), accumulation of Set-Cookie values under Add, with serialise-and-parse-back steps in the middle of the sequence (the remaining ops run on the parsed header) and write->parse round trip; " +
+			"mix: the same with the specially handled names mixed in, judged by non-interference (other names keep values and order after every op), accumulation of Set-Cookie values under Add, with serialise-and-parse-back steps in the middle of the sequence (the remaining ops run on the parsed header) CopyTo steps (the copy and the source must stay independent under later Set/Add/Del on either) and write->parse round trip; " +
 			"non-trivial = at least two names in use and a Del or Set present; distinct = distinct input",
 		Build: func(kind string, a [][]byte) *Case {
 			resp := a[0][0] != 0
@@ -200,6 +220,9 @@ func init() {
 				var verdict *Verdict
 				touchedTrailer := false
 				reparsed := false
+				copied := false
+				var twin *hdrAPI
+				twinSnap := ""
 				mut := false
 				names := map[string]bool{}
 				start := 0
@@ -239,6 +262,26 @@ func init() {
 				}
 				for i := start; i+2 < len(ops) && verdict == nil; i += 3 {
 					op, k, v := ops[i][0], ops[i+1], ops[i+2]
+					if twin != nil {
+						// a copy made earlier must not move when the other header is changed (and vice versa)
+						if now := allEntries(twin); now != twinSnap {
+							verdict = &Verdict{VSpec, "copy-not-independent", fmt.Sprintf("resp=%v dis=%v ops=%s: after CopyTo the two headers are tied: the untouched one read [%s] at copy time and reads [%s] after the other one was changed", resp, dis, showOps(ops[:i]), twinSnap, now)}
+							break
+						}
+					}
+					if op == 'C' {
+						cp := h.clone()
+						if x, y := allEntries(h), allEntries(cp); x != y {
+							verdict = &Verdict{VSpec, "copy-differs", fmt.Sprintf("resp=%v dis=%v ops=%s: CopyTo gave [%s] from [%s]", resp, dis, showOps(ops[:i+3]), y, x)}
+							break
+						}
+						if len(v) > 0 && v[0]%2 == 1 {
+							h, cp = cp, h // go on with the copy, watch the source
+						}
+						twin, twinSnap = cp, allEntries(cp)
+						copied = true
+						continue
+					}
 					if op == 'R' {
 						// serialise, parse back, and go on with the PARSED header (a server works on parsed headers: entries
 						// such as Cookie are then held in their raw form until first use)
@@ -332,7 +375,7 @@ func init() {
 				if verdict != nil {
 					res = *verdict
 				}
-				return &Case{Impl: res.Detail, Nontrivial: len(names) >= 2 && mut, Tags: []string{"mix", fmt.Sprintf("mix-reparsed-midway=%v", reparsed)}, Judge: func([]string) Verdict { return res }}
+				return &Case{Impl: res.Detail, Nontrivial: len(names) >= 2 && mut, Tags: []string{"mix", fmt.Sprintf("mix-reparsed-midway=%v", reparsed), fmt.Sprintf("mix-copyto=%v", copied)}, Judge: func([]string) Verdict { return res }}
 			}
 			return nil
 		},
@@ -347,7 +390,7 @@ func init() {
 				names := ordNames
 				opsAl := []byte("AAASDDPM")
 				if i%2 == 1 {
-					kind, names, opsAl = "mix", mixNames, []byte("AAASSDDR")
+					kind, names, opsAl = "mix", mixNames, []byte("AAASSSDDRC")
 				}
 				args := [][]byte{{byte(r.Intn(2))}, {0}}
 				if r.Chance(20) {
